@@ -32,6 +32,14 @@ ASSUMPTIONS = ["a battery that delivers no current in a system without phases is
 _mon = {"on": False, "solves": 0, "dcalls": 0}
 
 
+class _NoCount:
+    """Stand-in context for building the twin (its build history is not counted twice)."""
+
+    @staticmethod
+    def count(*a, **k):
+        pass
+
+
 class HandOverMissing(Exception):
     """Raised by the monitor when the solver keeps being called without the current being handed to dfunc."""
 
@@ -167,9 +175,9 @@ def run(ctx, case):
     for k, (_, t, i, ret, prev) in enumerate(dcalls):
         ph = phases[k % len(phases)][0] if phases else ""
         tb["args"]["vo"], tb["args"]["rs"] = prev[1], prev[2]
-        st, tw = H.try_build(twin_spec)
-        if st != "ok":
-            raise RuntimeError("twin rejected: %s" % H.exc_sig(tw))
+        # the twin goes through the SAME build history (same insertion order, hence bit-identical arithmetic: in an
+        # overloaded battery state the iteration is chaotic and a different summation order changes where it ends)
+        _, tw = _rows.build_with_history(_NoCount, twin_spec, case.get("history", "fresh"), case["seed"] & 0xFFFFFF)
         kw = dict(vtol=1e-5, itol=1e-6)
         if ph:
             kw["phase"] = ph
